@@ -77,3 +77,33 @@ Definition expected_events (decompress : bytes -> option bytes) (c : cfg) (body 
 
 Definition count_end (evs : list event) : nat :=
   length (filter (fun e => match e with EvEnd _ _ => true | _ => false end) evs).
+
+(* ---------- vocabulary for well-formed streams ---------- *)
+(* a message = (flags, payload) *)
+Definition encode_all (msgs : list (N * bytes)) : bytes :=
+  concat (map (fun m => encode (fst m) (snd m)) msgs).
+
+Definition fits (m : N * bytes) : Prop := blen (snd m) < 4294967296.
+
+(* what one complete message contributes *)
+Definition msg_events (decompress : bytes -> option bytes) (c : cfg) (m : N * bytes) : list tev :=
+  TData (Some (mk_env (fst m) (blen (snd m)))) (blen (snd m)) :: end_stream_events decompress c (fst m) (snd m).
+
+(* what the first j bytes (0 < j < whole length) of a message with these flags and this declared
+   length contribute: inside the prefix - no envelope, j bytes; inside the payload - the envelope
+   and the payload bytes seen; exactly at the end of the prefix - nothing (no payload byte seen) *)
+Definition partial_events (flags len : N) (j : nat) : list tev :=
+  if (j <? 5)%nat then [TData None (N.of_nat j)]
+  else if (j =? 5)%nat then []
+  else [TData (Some (mk_env flags len)) (N.of_nat (j - 5))].
+
+Fixpoint data_indices (evs : list event) : list N :=
+  match evs with
+  | [] => []
+  | EvData _ i _ _ :: r => i :: data_indices r
+  | _ :: r => data_indices r
+  end.
+Fixpoint seqN (k : N) (n : nat) : list N :=
+  match n with O => [] | S n' => k :: seqN (k + 1) n' end.
+Definition count_data (ts : list tev) : nat :=
+  length (filter (fun t => match t with TData _ _ => true | TEnd _ => false end) ts).
